@@ -239,6 +239,50 @@ pub fn run(tier: Tier) -> i32 {
     }
 
     // ---------------------------------------------------------------- E1: LZMA2 (accumulating window, dictionary resets)
+    // ---------------------------------------------------------------- references under a memory limit below the dictionary size:
+    // whatever the limit does, a copy is never served from the wrong place - the outcome is an error or the exact data
+    {
+        let name = "E1/public+raw/references-under-a-memory-limit";
+        if ctx.may_start(name) {
+            let t0 = Instant::now();
+            let mut items = Vec::new();
+            for lits in [40usize, 100, 300] {
+                for m in [1u64, 16, 39, 64, 99, 128, 299, 1000] {
+                    for d in [1u32, 2, 30, 38, 39, 40, 65, 70, 99, 100, 129, 250, 299, 300] {
+                        for l in [2u32, 4, 40, 273] {
+                            if (d as usize) <= lits {
+                                items.push((lits, m, d, l));
+                            }
+                        }
+                    }
+                }
+            }
+            par_for(items.len() as u64, |i| {
+                let (lits, m, d, l) = items[i as usize];
+                let mut prog: Vec<Sym> = (0..lits as u32).map(|b| Sym::L(((b * 7 + b / 9 + 1) & 0xFF) as u8)).collect();
+                prog.push(Sym::M(d, l));
+                prog.push(Sym::L(0x5A));
+                prog.push(Sym::S);
+                let e = enc::encode(3, 0, 2, 4096, &prog);
+                ctx.eval(2);
+                ctx.nontriv(2);
+                let file = enc::lzma_file(3, 0, 2, 4096, Some(e.expect.len() as u64), &e.payload);
+                let case = Case::Dec { fmt: Fmt::Lzma, opts: Opts { memlimit: Some(m), ..Opts::default() }, input: Hex(file), rd: Rd::default(), sk: Sk::default() };
+                let o = crate::cases::run_case(&case);
+                if !(o.v.is_err() || (o.v.is_ok() && o.out.0 == e.expect)) {
+                    ctx.violation(&case, &format!("{} literals, M({},{}), literal, short rep on a 4096-byte dictionary with memory limit {}: an error, or exactly {} ({} bytes)", lits, d, l, m, brief_bytes(&e.expect), e.expect.len()), &o, None);
+                    return;
+                }
+                let case = Case::RawLzma { lc: 3, lp: 0, pb: 2, dict: 4096, size: Some(e.expect.len() as u64), memlimit: Some(m), ops: vec![RawOp::Dec(Hex(e.payload.clone()))] };
+                let o = crate::cases::run_case(&case);
+                let r = o.ops.first();
+                if !r.map_or(false, |r| r.v.is_err() || (r.v.is_ok() && o.out.0 == e.expect)) {
+                    ctx.violation(&case, &format!("raw decoder: {} literals, M({},{}), literal, short rep on a 4096-byte dictionary with memory limit {}: an error, or exactly the data ({} bytes)", lits, d, l, m, e.expect.len()), &o, None);
+                }
+            });
+            ctx.scope_done(name, items.len() as u64, t0, "copies at distances below/at/above the limit, limit below the dictionary size");
+        }
+    }
     {
         let name = "E1/lzma2";
         if ctx.may_start(name) {
